@@ -1,3 +1,4 @@
+#![cfg_attr(kani, feature(allocator_api))]
 use std::collections::{BTreeMap, BTreeSet};
 use std::fs;
 use std::io;
